@@ -323,6 +323,21 @@ def shape_wrapped(item, ob):
     def run(): return E.run_fn(f, [Ref(Cell(Adt('WrappedVec', None, [RcV(RcObj(Seq([objn(100 + k) for k in range(n)]))), z3.IntVal(pos)])))])
     rem = list(range(100 + pos, 100 + n))
     src = 'stream([' + ', '.join(str(100 + k) for k in range(n)) + '])' + (f' drop {pos}' if pos else '')
+    if meth == 'pythonic_index_isize':
+        # the index of a partly consumed wrapper stream (whichever of the override / the trait default is in force): s[i] == list(s)[i], i over all of isize
+        I = z3.Int('i'); nr = len(rem)
+        def run_i(): E.assume(I >= ISZ[0], I <= ISZ[1]); return E.run_fn(f, [Ref(Cell(Adt('WrappedVec', None, [RcV(RcObj(Seq([objn(100 + k) for k in range(n)]))), z3.IntVal(pos)]))), I])
+        def replay_i(model):
+            i = mval(model, I); p = i if 0 <= i < nr else (nr + i if -nr <= i < 0 else None)
+            return {'program': f'({src})[{fmt_int(i)}]', 'expect': {'equals': f'OK {rem[p]}'} if p is not None else {'prefix': 'ERR'}}
+        for pc, kd, res, lg in E.explore(run_i):
+            ob.paths += 1; name = f'WrappedVec::pythonic_index_isize n={n} pos={pos}'; pref = [[z3.And(I >= -6, I <= 6)]]
+            if kd == 'panic': ob.panic(name + ' panic-free', pc, res, replay=replay_i, cls='C11/WrappedVec index/panic', prefer=pref); continue
+            if kd != 'ok': ob.missing(name, f'{kd}: {res}'); continue
+            valid = z3.And(I >= -nr, I < nr); p = z3.If(I >= 0, I, I + nr)
+            goal = z3.And(valid, obj_ident(res.fields[0]) == 100 + pos + p) if res.variant == 'Ok' else z3.Not(valid)
+            ob.check(name + f' -> {res.variant}', pc, goal, replay=replay_i, cls='C11/WrappedVec index/value', prefer=pref, sample='s[i] == list(s)[i] for a partly consumed stream(seq)'); ob.witness(res.variant)
+        ob.absorb_engine(E); return
     replay = lambda model: {'program': f'len({src})' if meth == 'len' else f'list(reverse({src}))', 'expect': {'equals': f'OK {len(rem)}' if meth == 'len' else 'OK [' + ', '.join(map(str, reversed(rem))) + ']'}}
     for pc, kd, res, lg in E.explore(run):
         ob.paths += 1; name = f'WrappedVec::{meth} n={n} pos={pos}'
@@ -404,6 +419,7 @@ def main(tier, seed, t0):
         for n in range(0, N + 1): items.append(('default', (meth, n, 'Range')))
     for meth in ('len', 'force'):
         for n, pos in ((0, 0), (2, 0), (3, 1), (3, 3)): items.append(('wrapped', (meth, n, pos)))
+    for n, pos in ((0, 0), (2, 0), (3, 1), (3, 2), (3, 3)): items.append(('wrapped', ('pythonic_index_isize', n, pos)))
     for n in range(1, 4): items.append(('cycle', (n,)))          # Cycle's invariant: non-empty base (established by the constructor, checked below)
     for n in (0, 2): items.append(('cycle_ctor', (n,)))
     rnd.shuffle(items)
